@@ -72,8 +72,9 @@ def _serve_decode(short, vals, meta):
 KANI_LIGHT = ["--no-memory-safety-checks", "--no-assertion-reach-checks", "-Z", "unstable-options"]
 
 
-PREP_UNITS = {"quick": ["prep_unit_n2_noincl", "prep_unit_n2_h1", "prep_unit_n2_h2"],
-              "thorough": ["prep_unit_n2_noincl", "prep_unit_n2_h0", "prep_unit_n2_h1", "prep_unit_n2_h2", "prep_unit_n3_h1"]}
+# (instances with entity headers in the parts -- prep_unit_n2_h1/h2, n3_h1 -- exhaust 24 GB and are not registered)
+PREP_UNITS = {"quick": ["prep_unit_n2_noincl"],
+              "thorough": ["prep_unit_n2_noincl", "prep_unit_n2_h0", "prep_unit_n3_noincl"]}
 
 
 def unit_serve(select, panic_tags=("C13",), precond=False, mp=None, prep=False, qkey=None, qcap=1):
@@ -128,6 +129,8 @@ MODEL_ASSUMPTIONS = [
     "results are for the instantiation Data = Chunk (denotes entity byte positions), Error = HErr",
     "every solver counterexample is replayed against the real build with the real dependencies before it is reported",
 ]
+
+MP_NOTE = 'multipart bodies are decomposed (DESIGN.md section 5b): serve() hands over the initial state of the MultipartStream state machine (checked in the serve_multi_* instances, with prepare_multipart replaced by a recording stand-in), the real prepare_multipart is verified alone (prep_unit_*: announced length = sum of part headers + part lengths + closing delimiter in 128 bits, part header text), and ONE poll of MultipartStream from every state satisfying its invariant is verified in mp_step_* (frame kind/order/position, remaining reduced by the frame length, Pending keeps the open stream, error fuses, end absorbing, exact hint); single-range 206 bodies are checked before the first poll (built over exactly a..b, exact hint), their delivery is the exactlen_* stream-level harness'
 
 PROPS = {}
 NOT_APPLICABLE = {
@@ -252,21 +255,23 @@ def quick_cap(sel, n):
 
 PROPS["C01"] = {
     "units": lambda tier, seed: [
-        unit_serve(g("full", "single", "multi", "unsat", "m405", methods=("GET", "POST", "EXT"), ir=("absent",)), mp=lambda c: True, prep=True),
+        unit_serve(g("full", "single", "multi", "unsat", "m405", methods=("GET", "POST", "EXT"), ir=("absent",)), mp=lambda c: True, prep=True,
+                   qkey=lambda c: (c["group"], c["method"], c["focus"])),
         unit_body(["exactlen_honour"]),
     ],
     "explanation": "serve() is executed for every structural request/entity configuration generated by vlib/gen_serve.py "
     "(method x ETag kind x modification time x entity headers x If-Range variant x what the range resolver answers) with "
     "entity length, range positions, clock and the entity's chunking symbolic; Content-Length (parsed back) is compared "
     "with the body's exact size hint and the range length; the length-checking stream is executed against every "
-    "contract-honouring inner stream of <= 4 events + tail (Sigma delivered <= announced at every step, = on clean end).",
+    "contract-honouring inner stream of <= 4 events + tail (Sigma delivered <= announced at every step, = on clean end). " + MP_NOTE + ".",
     "functions": ["serving::serve", "serving::serve_inner", "serving::prepare_multipart", "serving::MultipartStream::poll_next", "body::ExactLenStream::poll_next", "body::Body::size_hint", "body::Body::poll_frame"],
-    "bounds": {"ranges": "0, 1 or 2 satisfiable ranges (3 in the thorough tier)", "numbers": "all u64 consistent with the resolver's contract", "entity stream": "2 scripted events (Pending / chunk of any length / error) per get_range call, then the remainder in one chunk", "polls": "2 per single body inside serve(), 9 in the stream-level harness, 12 for multipart"},
+    "bounds": {"ranges": "0, 1 or 2 satisfiable ranges (3 in the thorough tier)", "numbers": "all u64 consistent with the resolver's contract", "entity stream": "2 scripted events (Pending / chunk of any length / error) per get_range call, then the remainder in one chunk", "polls": "2 per complete-200 body inside serve(), 9 in the stream-level harness; multipart: one poll from an arbitrary invariant state (induction over polls)",
+               "quick tier": "one serve-level instance per response class (the thorough tier runs every generated configuration)"},
     "outside": ["more than 3 ranges", "longer chunk scripts", "decimal rendering of numbers is std's (numeral model, see assumptions)"],
     "assumptions": MODEL_ASSUMPTIONS,
 }
 PROPS["C02"] = dict(PROPS["C01"], units=lambda tier, seed: [
-    unit_serve(g("full", "single", methods=("GET",))),
+    unit_serve(g("full", "single", methods=("GET",)), qkey=lambda c: (c["group"], c["focus"], c["ir"] if c["ir"] in ("absent", "same") else "x")),
     unit_body(["exactlen_honour"]),
 ])
 PROPS["C02"]["explanation"] = ("Same executions as C01 for complete and single-range GET responses: the harness entity's chunks "
@@ -276,7 +281,7 @@ PROPS["C02"]["explanation"] = ("Same executions as C01 for complete and single-r
 PROPS["C03"] = {
     "units": lambda tier, seed: [
         unit_range(),
-        unit_serve(g("unsat", "single", "multi", ir=("absent",)), panic_tags=("C13", "C03")),
+        unit_serve(g("unsat", "single", "multi", ir=("absent",)), panic_tags=("C13", "C03"), qkey=lambda c: (c["group"], c["method"])),
     ],
     "explanation": "range::parse is executed symbolically on generated skeleton texts (1..3 specs, each of the three "
     "forms, optional whitespace after commas) whose numbers are free 64-bit values (integer parser stubbed) "
@@ -311,7 +316,8 @@ PROPS["C04"] = {
 
 PROPS["C05"] = {
     "units": lambda tier, seed: [
-        unit_serve(g("single", "multi", "unsat", ir=("same", "other", "weak", "date")), panic_tags=("C13",)),
+        unit_serve(g("single", "multi", "unsat", ir=("same", "other", "weak", "date")), panic_tags=("C13",),
+                   qkey=lambda c: (c["group"], c["ir"], c["etag"]) if c["method"] == "GET" and c["focus"] != 2 else ("head", c["group"])),
         unit_etag(["etag_eq_sym"]),
     ],
     "explanation": "serve() with Range + If-Range in {entity's own tag (strong / weak / none), another tag, weak variant, the served "
@@ -325,13 +331,12 @@ PROPS["C05"] = {
 }
 
 PROPS["C06"] = {
-    "units": lambda tier, seed: [unit_serve(g("multi"), mp=lambda c: True, prep=True)],
+    "units": lambda tier, seed: [unit_serve(g("multi"), mp=lambda c: True, prep=True, qkey=lambda c: (c["method"], c["ir"] == "other"))],
     "explanation": "serve() with two (thorough: three) symbolic satisfiable ranges (overlapping, adjacent, duplicated, out of order all "
-    "allowed), entity headers 0..2, with/without matching If-Range: Content-Type, absence of top-level Content-Range, and the "
-    "whole frame sequence (part header bytes compared field by field, entity bytes position by position, closing delimiter) "
-    "and Content-Length = sum of frame lengths are asserted; 413 only if the length cannot be expressed.",
+    "allowed), entity headers 0..2, with/without matching If-Range: Content-Type, absence of top-level Content-Range, ranges handed on in request order, "
+    "entity headers in the parts exactly without If-Range; " + MP_NOTE + "; 413 only if the length cannot be expressed (prep_unit_*).",
     "functions": ["serving::prepare_multipart", "serving::MultipartStream::poll_next", "serving::serve"],
-    "bounds": {"parts": "2 (quick) / 3 (thorough); the property's 2..8 is cut there", "positions": "all u64", "entity headers": "0, 1 or 2 fixed headers"},
+    "bounds": {"parts": "2 and 3; the property's 2..8 is cut there", "positions": "all u64", "entity headers": "0, 1 or 2 fixed headers", "polls": "one poll from an arbitrary invariant state (induction over polls)"},
     "outside": ["more than 3 parts", "decimal widths (numeral model; decimal rendering is std's)"],
     "assumptions": MODEL_ASSUMPTIONS,
 }
@@ -349,23 +354,18 @@ PROPS["C07"] = {
 
 PROPS["C08"] = {
     "units": lambda tier, seed: [unit_chunker(ch_c08)],
-    "explanation": "All programs of 4 operations over {write(0..5 symbolic bytes), write_all, flush, poll, nop} on a BodyWriter (raw arm) "
-    "with chunk sizes 1..4, followed by drop and drain: accepted prefixes vs delivered frames byte by byte, non-empty frames, "
-    "flush makes everything available, write accepts >= 1 byte, clean end.",
-    "functions": ["chunker::Writer::write", "chunker::Writer::flush", "chunker::Writer::flush_helper", "chunker::Writer::drop", "chunker::Reader::poll_next", "gzip::BodyWriter::write/flush (Raw arm)"],
-    "bounds": {"operations": 4, "write length": "0..5 bytes", "chunk sizes": "1, 2, 3, 4"},
-    "outside": ["longer histories", "chunk sizes 4096/65536 (same code path, sizes only enter comparisons)", "the gzip arm (flate2 is a marker model)"],
+    "explanation": 'inductive steps over src/chunker.rs (DESIGN.md section 5): from an ARBITRARY shared state satisfying the invariant INV (ready_bytes = sum of queued chunk lengths, chunks non-empty, a waker is registered only on an empty live queue; writer buffer below the chunk size), checked again at every release of the model mutex, one producer operation leaves the queued chunks untouched and `new chunks ++ buffer = old buffer ++ accepted bytes` byte by byte, write accepts 1..n bytes on a live body and never fails, flush leaves nothing in the buffer and never fails on a live body, drop hands over the rest and marks the end; one poll delivers exactly the head of the queue, unchanged and non-empty, and ends cleanly only when the queue is empty and the writer gone. By induction: frames = accepted bytes, once, in order.',
+    "functions": ['chunker::Writer::write', 'chunker::Writer::flush', 'chunker::Writer::flush_helper', 'chunker::Writer::drop', 'chunker::Reader::poll_next', 'body::Body::poll_frame'],
+    "bounds": {'pre-state': '0..2 queued chunks of symbolic length 1..chunk size, chunk size 1..3, every buffer fill below the chunk size, writer alive/dropped, waker registered or not, Ok / Err / consumer-gone', 'step': 'one producer operation (write of 0..4 bytes, flush, abort, drop; four two-operation instances) or one poll (thorough: two) with arbitrary wakers', 'bytes': 'all byte values symbolic'},
+    "outside": ['interleavings inside std::sync::Mutex and weak-memory effects (the mutex is trusted to be a mutex; induction is over critical sections)', 'chunk sizes > 3 and queues longer than 4 (sizes only enter comparisons)', "write_all (std's retry loop over write)", 'the gzip arm (flate2 is a marker model)'],
     "assumptions": MODEL_ASSUMPTIONS,
 }
 PROPS["C10"] = {
     "units": lambda tier, seed: [unit_chunker(ch_c10)],
-    "explanation": "As C08, plus abort, with consumer polls (0..2, same or different waker) injected at every lock acquisition and release "
-    "of the producer's operations -- in particular between unlock and wake() -- by the std-model mutex: a parked consumer is "
-    "woken whenever data, the end or an error becomes available; after the writer is gone the body terminates within "
-    "(queued chunks + 2) polls.",
-    "functions": ["chunker::*", "gzip::BodyWriter::abort"],
-    "bounds": {"operations": 4, "scheduling points with consumer polls": 6, "polls per point": "0..2"},
-    "outside": ["interleavings inside std::sync::Mutex itself and weak-memory effects (the mutex is trusted to be a mutex)", "producer steps in the middle of a consumer poll (poll_next is one critical section; re-checked structurally: the model mutex reports a second lock as deadlock)"],
+    "explanation": "inductive steps over src/chunker.rs (DESIGN.md section 5): from an ARBITRARY shared state satisfying the invariant INV (ready_bytes = sum of queued chunk lengths, chunks non-empty, a waker is registered only on an empty live queue; writer buffer below the chunk size), checked again at every release of the model mutex, every producer operation that publishes a chunk, the end or an error takes the registered waker in the same critical section and wakes it; a poll returns Pending only on an empty live queue and then the waker of the LATEST poll is the one registered (fresh waker per poll); a state with the writer gone or an error pending yields its terminal event on the next poll. The window between the producer's unlock and its wake() is an INV state handled by the consumer step. By induction: no lost wake-up at lock granularity, for histories of any length.",
+    "functions": ['chunker::Writer::flush_helper', 'chunker::Writer::abort', 'chunker::Writer::drop', 'chunker::Reader::poll_next'],
+    "bounds": {'pre-state': '0..2 queued chunks of symbolic length 1..chunk size, chunk size 1..3, every buffer fill below the chunk size, writer alive/dropped, waker registered or not, Ok / Err / consumer-gone', 'step': 'one producer operation (write of 0..4 bytes, flush, abort, drop; four two-operation instances) or one poll (thorough: two) with arbitrary wakers', 'bytes': 'all byte values symbolic'},
+    "outside": ['interleavings inside std::sync::Mutex and weak-memory effects (the mutex is trusted to be a mutex; induction is over critical sections)', 'chunk sizes > 3 and queues longer than 4 (sizes only enter comparisons)', "write_all (std's retry loop over write)", 'the gzip arm (flate2 is a marker model)'],
     "assumptions": MODEL_ASSUMPTIONS,
 }
 PROPS["C11"] = {
@@ -373,21 +373,23 @@ PROPS["C11"] = {
         unit_chunker(ch_c11),
         unit_gzip(["sb_dead_after_abort_raw", "sb_dead_after_abort_gz"]),
     ],
-    "explanation": "As C08 with abort at any position (terminal event is an error, delivered bytes are a prefix, no end-of-stream claim while the "
-    "error is pending, later writes/flushes fail) and with the response body dropped at any position (a later write+flush must fail).",
-    "functions": ["chunker::Writer::abort", "chunker::Reader (drop)", "gzip::BodyWriter::abort/write/flush"],
-    "bounds": {"operations": 4},
-    "outside": ["gzip arm internals"],
+    "explanation": 'inductive steps over src/chunker.rs (DESIGN.md section 5): from an ARBITRARY shared state satisfying the invariant INV (ready_bytes = sum of queued chunk lengths, chunks non-empty, a waker is registered only on an empty live queue; writer buffer below the chunk size), checked again at every release of the model mutex, abort leaves the error state and wakes the consumer; from the error state the next poll is the error (never a clean end, never after is_end_stream()), then the body is fused; dropping the body leaves a non-Ok state, from which flush of buffered data and every chunk-completing write fail; BodyWriter refuses every write/flush after abort (raw and gzip arm).',
+    "functions": ['chunker::Writer::abort', 'chunker::Reader::drop', 'chunker::Writer::flush_helper', 'gzip::BodyWriter::abort', 'gzip::BodyWriter::write', 'gzip::BodyWriter::flush'],
+    "bounds": {'pre-state': '0..2 queued chunks of symbolic length 1..chunk size, chunk size 1..3, every buffer fill below the chunk size, writer alive/dropped, waker registered or not, Ok / Err / consumer-gone', 'step': 'one producer operation (write of 0..4 bytes, flush, abort, drop; four two-operation instances) or one poll (thorough: two) with arbitrary wakers', 'bytes': 'all byte values symbolic'},
+    "outside": ['interleavings inside std::sync::Mutex and weak-memory effects (the mutex is trusted to be a mutex; induction is over critical sections)', 'chunk sizes > 3 and queues longer than 4 (sizes only enter comparisons)', "write_all (std's retry loop over write)", 'the gzip arm (flate2 is a marker model)'],
     "assumptions": MODEL_ASSUMPTIONS,
 }
 PROPS["C12"] = {
     "units": lambda tier, seed: [
         unit_body(["body_from", "exactlen_honour"]),
         unit_chunker(ch_c12),
-        unit_serve(lambda c: c["group"] in ("full", "multi") and c["method"] == "GET" and c["ir"] == "absent" and c["nhdr"] <= 1, mp=lambda c: True),
+        unit_serve(lambda c: c["group"] in ("full", "multi") and c["method"] == "GET" and c["ir"] == "absent" and c["nhdr"] <= 1, mp=lambda c: True,
+                   qkey=lambda c: (c["group"], c["focus"])),
     ],
-    "explanation": "size_hint()/is_end_stream() are sampled before every poll in the body, chunker and serve harnesses: exact hints equal announced minus "
-    "delivered; chunker hints bracket what is still delivered on a clean end; nothing follows is_end_stream().",
+    "explanation": "size_hint()/is_end_stream() are sampled before every poll in the body and serve harnesses (exact hints equal announced minus "
+    "delivered; nothing follows is_end_stream()); for streaming bodies in every consumer step from an arbitrary invariant state (lower bound <= queued bytes, no upper bound "
+    "while the writer lives, upper >= queued once it is gone, no end-of-stream claim while chunks or an error are pending; the producer steps keep ready_bytes = sum of chunk lengths); "
+    "for multipart bodies after every poll of the state machine (exact hint = remaining, end flag only in the end state) and before the first poll in serve().",
     "functions": ["body::Body::size_hint", "body::Body::is_end_stream", "chunker::Reader::size_hint", "chunker::Reader::is_end_stream"],
     "bounds": {"see": "C01, C06, C08, C11"},
     "outside": ["gzip bodies (C09)"],
@@ -396,7 +398,7 @@ PROPS["C12"] = {
 PROPS["C13"] = {
     "units": lambda tier, seed: [
         unit_range(),
-        unit_serve(g("m405", "unsat", methods=("POST", "EXT", "GET"))),
+        unit_serve(g("m405", "unsat", methods=("POST", "EXT", "GET")), qkey=lambda c: (c["group"], c["method"])),
         unit_etag(["etag_list_sym", "etag_match_im", "etag_match_inm", "etag_match_im_noetag", "etag_match_inm_noetag"]),
     ],
     "explanation": "Kani's built-in checks (arithmetic overflow, slice bounds, unwrap/expect, unreachable) are the oracle: the Range parser over all "
@@ -409,7 +411,8 @@ PROPS["C13"] = {
 }
 PROPS["C14"] = {
     "units": lambda tier, seed: [
-        unit_serve(lambda c: c["group"] in ("full", "unsat") or (c["group"] == "single" and c["ir"] in ("absent", "same")), precond=True),
+        unit_serve(lambda c: c["group"] in ("full", "unsat") or (c["group"] == "single" and c["ir"] in ("absent", "same")), precond=True,
+                   qkey=lambda c: (c["group"], c["method"], c["focus"], c["has_mtime"]) if c["group"] == "full" else (c["group"], c["method"])),
     ],
     "explanation": "serve(): Accept-Ranges, ETag bytes, Date/Last-Modified presence, Last-Modified = min(mtime, now) truncated <= Date, entity headers on "
     "200/206-without-If-Range and absent on 416, with clock and modification time symbolic; parse_modified_hdrs with the date equal "
@@ -421,7 +424,7 @@ PROPS["C14"] = {
 }
 PROPS["C15"] = {
     "units": lambda tier, seed: [
-        unit_serve(g("full", "single", "multi", "unsat", methods=("HEAD",))),
+        unit_serve(g("full", "single", "multi", "unsat", methods=("HEAD",)), qkey=lambda c: (c["group"], c["ir"] == "absent")),
         unit_gzip(["sb_build_gzip", "sb_build_absent"]),
     ],
     "explanation": "Every serve() configuration is also executed with HEAD: same status/headers assertions as GET, empty body with exact hint 0, zero "
@@ -466,8 +469,10 @@ PROPS["C20"] = {
         unit_chunker(ch_c20, panic_tags=("C13", "C20")),
         unit_serve(None, panic_tags=("C13", "C20"), mp=lambda c: c["ev"] == "e" or c["state"] >= 2 * c["n"]),
     ],
-    "explanation": "After the first terminal event every harness keeps polling (3 more polls): no data, no panic, for the length-checking stream under "
-    "arbitrary inner streams that stay finished once finished, for fixed bodies and for the chunker after clean end and abort.",
+    "explanation": "After the first terminal event the stream-level harnesses keep polling (3 more polls): no data, no panic, for the length-checking stream under "
+    "arbitrary inner streams that stay finished once finished and for fixed bodies. For the chunker and for multipart bodies terminal states are shown absorbing by induction: "
+    "every terminal event leaves the fused / end state (consumer steps after clean end, error, last chunk of a finished writer; multipart steps after entity error and closing delimiter), "
+    "and a poll from that state yields None and leaves it unchanged; no producer step leaves a fused state.",
     "functions": ["body::ExactLenStream::poll_next", "chunker::Reader::poll_next", "serving::MultipartStream::poll_next"],
     "bounds": {"extra polls": 3},
     "outside": [],
